@@ -101,9 +101,16 @@ def publicExec : List String := [
   "Array.__array__", "Array.__bool__", "Array.__complex__", "Array.__float__", "Array.__index__", "Array.__int__",
   "Array.__getitem__[cubed-key]", "take[cubed-indices]"]
 
-/-- Enclosing functions of the sites that start an execution, in table order without repeats. -/
+def insertStr (x : String) : List String → List String
+  | [] => [x]
+  | y :: ys => if x < y then x :: y :: ys else if x == y then y :: ys else y :: insertStr x ys
+
+/-- Sorted, without repeats (so that statements do not depend on the order of definitions in a file). -/
+def sortStrs (l : List String) : List String := l.foldr insertStr []
+
+/-- Enclosing functions of the sites that start an execution, sorted, without repeats. -/
 def execEnclosing (sites : List Site) : List String :=
-  ((sites.filter (fun s => execCallees.contains s.callee)).map (·.enclosing)).eraseDups
+  sortStrs ((sites.filter (fun s => execCallees.contains s.callee)).map (·.enclosing))
 
 /-! ## Plans, tasks, store events -/
 
@@ -191,6 +198,19 @@ model): when a task of node `n` starts, every task of every predecessor of `n` h
 def Barrier (fp : FPlan) (sched : List Task) : Prop :=
   ∀ (j : Nat) (t : Task), sched[j]? = some t →
     ∀ n, t ∈ tasksOf fp n → ∀ p ∈ preds fp n, ∀ t' ∈ tasksOf fp p, t' ∈ sched.take j
+
+/-- Nodes of the finalized dag that have tasks. -/
+def nodesOf (fp : FPlan) : List Node := Node.createArrays :: fp.pipes.map (fun o => Node.op o.name)
+
+/-- Executable check of `Barrier` (sound: `Proofs/Lazy.lean: barrierOk_sound`). -/
+def barrierOk (fp : FPlan) (sched : List Task) : Bool :=
+  (List.range sched.length).all fun j =>
+    match sched[j]? with
+    | none => true
+    | some t =>
+      (nodesOf fp).all fun n =>
+        !((tasksOf fp n).contains t) ||
+          (preds fp n).all fun p => (tasksOf fp p).all fun t' => (sched.take j).contains t'
 
 /-! ## Sessions: a history of API calls acting on a store -/
 
